@@ -1234,6 +1234,10 @@ struct ical_parser_s {
 
 #define ICAL_EOP	((struct ical_vevent_s*)0x1U)
 
+#if defined ECHSE_VERIF
+extern void echse_verif_line(const char *line, size_t len);
+#endif	/* ECHSE_VERIF */
+
 static size_t
 esccpy(char *restrict tgt, size_t tz, const char *src, size_t sz)
 {
@@ -1312,6 +1316,10 @@ _ical_proc(struct ical_parser_s p[static 1U])
 	const char *vp;
 	const struct ical_fld_cell_s *c;
 
+#if defined ECHSE_VERIF
+	/* verification hook: report every unfolded line the parser acts upon */
+	echse_verif_line(sp, sz);
+#endif	/* ECHSE_VERIF */
 	if (UNLIKELY((eofld = strpbrk(sp, ":;")) == NULL)) {
 		goto out;
 	} else if (UNLIKELY((c = __evical_fld(sp, eofld - sp)) == NULL)) {
